@@ -48,6 +48,10 @@ impl Records {
                        for i in chunk {
                             bytes.push(*i);
                         }
+                        // a chunk can be stored short, what is missing reads as zeros and keeps the next chunk in place
+                        for _i in chunk.len()..chunk_len {
+                            bytes.push(0);
+                        }
                     },
                     // only the data of a record is ever stored: a chunk that would hold the unused tail
                     // of the record may not exist, and reads as zeros
